@@ -43,17 +43,6 @@ var c17LexModes = []int{
 
 var c17FlagModes = []int{l3Entire, l3Entire | l3NoCase, l3Entire | l3Shortest, 0, l3Shortest, l3NoCase, l3Entire | l3NoCase | l3Shortest}
 
-func c17Compiles(p string, mode int) string {
-	_, expr, ok := l3Regexp(p, mode)
-	if !ok {
-		return "na"
-	}
-	if _, err := regexp.Compile(expr); err != nil {
-		return "no"
-	}
-	return "yes"
-}
-
 // c17Known lists the documented divergence regions (known findings, see props/C17.notes.md and
 // known-findings.jsonl) a pattern falls into under a mode.  The generator does not send such
 // patterns to the specification stream or to the bash search leg; the canonical witness of every
@@ -191,10 +180,14 @@ func c17Classify(p string) []string {
 
 // c17Tie emits the model-correspondence lines for one pattern and mode.
 func c17Tie(c *Ctx, p string, mode int, deep bool) {
-	line, _, ok := l3Regexp(p, mode)
+	line, expr, ok := l3Regexp(p, mode)
 	c.Op(fmt.Sprintf("regexp %d %s", mode, hx(p)), line)
 	if ok {
-		c.Op(fmt.Sprintf("compiles %d %s", mode, hx(p)), c17Compiles(p, mode))
+		comp := "yes"
+		if _, err := regexp.Compile(expr); err != nil {
+			comp = "no"
+		}
+		c.Op(fmt.Sprintf("compiles %d %s", mode, hx(p)), comp)
 	}
 	if !deep {
 		return
@@ -254,31 +247,95 @@ func c17BashHow(mode int, alt bool) (how string, extglob bool, prelude string) {
 	return "case", false, prelude
 }
 
-// c17RunBash evaluates the probes in parallel: bash verdicts, compared with the real matcher
-// (search leg, c.Fail) and handed to the driver for the reference semantics (`bashspec`).
-func c17RunBash(c *Ctx, probes []c17Probe) {
-	type res struct {
-		bash string
-		ok   bool
+// c17BashBatchScript evaluates a sequence of (pattern, n, n subjects) groups given as positional
+// parameters and prints one line of 0/1 per pattern.  Pattern and subjects are only ever used
+// through parameters, never pasted into the script.
+func c17BashBatchScript(how string, extglob bool, prelude string) string {
+	sh := prelude
+	if extglob {
+		sh += "shopt -s extglob\n"
+	} else {
+		sh += "shopt -u extglob\n"
 	}
-	out := parallelMap(len(probes), 12, func(i int) res {
-		pr := probes[i]
-		how, ext, prelude := c17BashHow(pr.mode, i%2 == 1)
-		args := append([]string{pr.p}, pr.strs...)
-		r := runShell(c, "bash", prelude+l3BashScript(how, ext), args...)
-		if r.TimedOut || r.Status != 0 || len(r.Stdout) != len(pr.strs) {
-			return res{r.Stdout, false}
-		}
-		return res{r.Stdout, true}
-	})
+	sh += `while [ $# -gt 0 ]; do p=$1; n=$2; shift 2; o=; i=0
+while [ $i -lt $n ]; do s=$1; shift; i=$((i+1))
+`
+	if how == "cond" {
+		sh += `if [[ $s == $p ]]; then o+=1; else o+=0; fi` + "\n"
+	} else {
+		sh += `case $s in $p) o+=1;; *) o+=0;; esac` + "\n"
+	}
+	sh += `done; printf '%s\n' "$o"; done`
+	return sh
+}
+
+// c17RunBash evaluates the probes (batched, a few bash processes): bash verdicts are compared
+// with the real matcher (search leg, c.Fail) and handed to the driver for the reference
+// semantics (`bashspec`).
+func c17RunBash(c *Ctx, probes []c17Probe) {
+	type key struct {
+		how     string
+		ext     bool
+		prelude string
+	}
+	groups := map[key][]int{}
+	var order []key
 	for i, pr := range probes {
-		if !out[i].ok {
+		how, ext, prelude := c17BashHow(pr.mode, i%2 == 1)
+		k := key{how, ext, prelude}
+		if _, ok := groups[k]; !ok {
+			order = append(order, k)
+		}
+		groups[k] = append(groups[k], i)
+	}
+	type batch struct {
+		k   key
+		idx []int
+	}
+	var batches []batch
+	for _, k := range order {
+		idx := groups[k]
+		for len(idx) > 0 {
+			n := min(len(idx), 24)
+			batches = append(batches, batch{k, idx[:n]})
+			idx = idx[n:]
+		}
+	}
+	results := make([]string, len(probes))
+	okv := make([]bool, len(probes))
+	outs := parallelMap(len(batches), 8, func(bi int) []string {
+		b := batches[bi]
+		var args []string
+		for _, i := range b.idx {
+			args = append(args, probes[i].p, strconv.Itoa(len(probes[i].strs)))
+			args = append(args, probes[i].strs...)
+		}
+		r := runShell(c, "bash", c17BashBatchScript(b.k.how, b.k.ext, b.k.prelude), args...)
+		if r.TimedOut || r.Status != 0 {
+			return nil
+		}
+		lines := strings.Split(strings.TrimSuffix(r.Stdout, "\n"), "\n")
+		if len(lines) != len(b.idx) {
+			return nil
+		}
+		return lines
+	})
+	c.Hist["bash:runs"] += len(batches)
+	for bi, b := range batches {
+		for j, i := range b.idx {
+			if outs[bi] != nil && len(outs[bi][j]) == len(probes[i].strs) {
+				results[i], okv[i] = outs[bi][j], true
+			}
+		}
+	}
+	for i, pr := range probes {
+		if !okv[i] {
 			c.Hist["bash:failed"]++
 			continue
 		}
 		c.Hist["bash:patterns"]++
 		c.Hist["bash:pairs"] += len(pr.strs)
-		bash := out[i].bash
+		bash := results[i]
 		var hs []string
 		for _, s := range pr.strs {
 			hs = append(hs, hx(s))
@@ -490,9 +547,9 @@ func c17(c *Ctx) {
 		maxLen = 5
 	}
 	var probes []c17Probe
-	bashBudget := 260
+	bashBudget := 400
 	if c.Thorough() {
-		bashBudget = 1500
+		bashBudget = 2500
 	}
 	idx := 0
 	consider := func(p string, mode int, strs []string) {
@@ -520,7 +577,10 @@ func c17(c *Ctx) {
 			modes = c17LexModes
 		} else {
 			h := c.R.Intn(len(c17LexModes))
-			modes = []int{c17LexModes[h], c17LexModes[(h+1+c.R.Intn(len(c17LexModes)-1))%len(c17LexModes)]}
+			modes = []int{c17LexModes[h]}
+			if c.Thorough() {
+				modes = append(modes, c17LexModes[(h+1+c.R.Intn(len(c17LexModes)-1))%len(c17LexModes)])
+			}
 		}
 		for _, lm := range modes {
 			mode := lm | c17FlagModes[c.R.Intn(len(c17FlagModes))]
